@@ -303,6 +303,13 @@ public:
     size_type
     size() const
     {
+        // A list that has never been used has no head node yet;
+        // do not create it just to count zero elements.
+        if (m_listHead == 0)
+        {
+            return 0;
+        }
+
         size_type size = 0;
         const_iterator item = begin();
         while (item != end())
@@ -316,7 +323,9 @@ public:
     bool
     empty() const
     {
-        return (begin() == end()) != 0;
+        // No head node (never used) means empty.  This must not
+        // allocate: it is called from destructors.
+        return m_listHead == 0 || m_listHead->next == m_listHead;
     }
 
     void 
@@ -411,6 +420,11 @@ public:
     void
     clear()
     {
+        if (m_listHead == 0)
+        {
+            return;
+        }
+
         iterator pos = begin();
         while (pos != end())
         {
